@@ -104,6 +104,9 @@ var c06Attacks = []C06Plan{
 	{Attack: "control-builder"},
 	// forged entries presented while a genuine registration of the same voucher is live
 	{Attack: "broken-chain-overwrite"}, {Attack: "entry-swap"}, {Attack: "entry-swap-overwrite"},
+	// the same with the entry's signature bytes left as they were (only the
+	// payload names the attacker's key)
+	{Attack: "entry-key-only"}, {Attack: "entry-key-only-overwrite"},
 	{Attack: "zero-entries"}, {Attack: "broken-chain"}, {Attack: "foreign-nonce"}, {Attack: "hash-mismatch"}, {Attack: "replay"},
 	// the same forgeries while one read or write of the rendezvous server's
 	// state backend fails during the handling of OwnerSign
@@ -447,14 +450,17 @@ func c06Run(env *Env, pl *C06Plan, collect *[]byte) {
 		body, err = BuildOwnerSign(ov, pl.TTL, nonce, evil, owner1, cfg.PSS(), nil)
 	case "zero-entries":
 		body, err = BuildOwnerSign(chain[0], pl.TTL, nonce, evil, s.Keys.Get("mfg", cfg.Fam()), cfg.PSS(), nil)
-	case "broken-chain", "broken-chain-overwrite", "entry-swap", "entry-swap-overwrite":
+	case "broken-chain", "broken-chain-overwrite", "entry-swap", "entry-swap-overwrite", "entry-key-only", "entry-key-only-overwrite":
 		bad := *ov
 		bad.Entries = append([]cose.Sign1Tag[fdo.VoucherEntryPayload, []byte](nil), ov.Entries...)
 		last := bad.Entries[len(bad.Entries)-1]
-		last.Protected = nil
+		keepSignature := strings.HasPrefix(pl.Attack, "entry-key-only")
+		if !keepSignature {
+			last.Protected = nil
+		}
 		att := s.Keys.Get("att1", cfg.Fam())
 		signer := owner1
-		if strings.HasPrefix(pl.Attack, "entry-swap") {
+		if strings.HasPrefix(pl.Attack, "entry-swap") || keepSignature {
 			// the forged entry also names the attacker's key, who then signs to1d
 			apk, perr := PublicKeyFor(cfg, att)
 			if perr != nil {
@@ -466,9 +472,11 @@ func c06Run(env *Env, pl *C06Plan, collect *[]byte) {
 			last.Payload = &pv
 			signer = att
 		}
-		if err := last.Sign(att.Key, nil, nil, SignOpts(att, cfg.PSS())); err != nil {
-			setupFail("resign-entry", err)
-			return
+		if !keepSignature {
+			if err := last.Sign(att.Key, nil, nil, SignOpts(att, cfg.PSS())); err != nil {
+				setupFail("resign-entry", err)
+				return
+			}
 		}
 		bad.Entries[len(bad.Entries)-1] = last
 		body, err = BuildOwnerSign(&bad, pl.TTL, nonce, evil, signer, cfg.PSS(), nil)
